@@ -44,7 +44,8 @@ _DWM = OpContract(
     # one entry of the composite per element that is still held
     inv="at_end[0] == s.at_end and len(delays.disposable) == s.pending",
     families={"delay": dict(spec=("delay_next", "delay_error", "delay_completed"), id_local="x", once=True,
-                            inv="contains(delays.disposable, d) and s.pending >= 1")},
+                            inv="contains(delays.disposable, d) and s.pending >= 1",
+                            locals={"x": "val", "d": "ref"}, unique=("d",))},
 )
 
 CONTRACTS = [_REL, _absolute(_REL), _DWM]
